@@ -16,7 +16,7 @@ def build(ctx):
 
 
 def bounded(ctx):
-    common.suites(ctx, ['val', 'li', 'mix', 'align'], {'value', 'label'})
+    common.suites(ctx, ['val', 'li', 'mix', 'align', 'rand'], {'value', 'label'})
 
 
 def explanation(ctx):
